@@ -132,7 +132,10 @@ def supplied_families(rows, basis, rng, tier):
             r1 = sympy.Matrix(m + [[int(kk == k) for kk in FC.KEYS]]).rank()
             if r1 > r0:
                 canon = trial
-    fams = [("canonical", canon, 3), ("full-nonzero", nonzero, 1), ("canonical,one-parameter-zero-at-one-volume", canon, 3)]
+    # "again": the same supplied set a second time in the same process with its columns in another order (a result that depends on
+    # an earlier call -- e.g. a cached design matrix -- fails it)
+    fams = [("canonical", canon, 3), ("canonical again, other column order, same process", canon, 3), ("full-nonzero", nonzero, 1),
+            ("canonical,one-parameter-zero-at-one-volume", canon, 3)]
     exch = []
     for k in canon:
         for k2 in nonzero:
@@ -157,6 +160,7 @@ def supplied_families(rows, basis, rng, tier):
 
 def fill_obligations(chk, F, system, rows, tier, rng):
     basis = FC.invariant_basis(rows)
+    last_order = []
     for fam, supplied, nrows in supplied_families(rows, basis, rng, tier):
         name = "%s:fill[%s,%d rows]" % (system, fam, nrows)
         ctx = new_context()
@@ -165,6 +169,12 @@ def fill_obligations(chk, F, system, rows, tier, rng):
         spell = {k: k.upper() for i, k in enumerate(supplied) if i % 3 == 1}
         order = list(supplied)
         rng.shuffle(order)
+        if "again" in fam and len(order) > 1:
+            order = list(last_order[1:]) + list(last_order[:1]) if sorted(last_order) == sorted(order) else order
+            HISTORY[:] = [list(last_order)]      # concrete replays repeat the history: the earlier order first
+        else:
+            HISTORY[:] = []
+        last_order = list(order)
         df = FC.make_table(t_rows, order, spell=spell)
         ex = X.Explorer(max_paths=64, name=name)
         ex.prefer = FC.no_drop_cut
@@ -185,7 +195,7 @@ def fill_obligations(chk, F, system, rows, tier, rng):
             if p.exception is not None:
                 ok = False
                 replay_fill(chk, F, system, basis, order, spell, nrows, rng, name,
-                            "fill raises %s: %s on a symmetry-consistent sufficient table" % (type(p.exception, zero_at=zero_at).__name__, p.exception), zero_at=zero_at)
+                            "fill raises %s: %s on a symmetry-consistent sufficient table" % (type(p.exception).__name__, p.exception), zero_at=zero_at)
                 break
             out = p.result
             cols = {c.lower(): c for c in out.columns}
@@ -236,8 +246,14 @@ def fill_obligations(chk, F, system, rows, tier, rng):
                                     and k in {c.lower() for c in paths[0].result.columns}} if ok else None))
 
 
+HISTORY = []
+
+
 def replay_fill(chk, F, system, basis, order, spell, nrows, rng, name, what, env=None, zero_at=None, quiet=False):
-    """Concrete replay: a random (or model) invariant tensor, real numpy, real fill_cij."""
+    """Concrete replay: a random (or model) invariant tensor, real numpy, real fill_cij (after the calls listed in HISTORY), on a fresh
+    instance of the module so that only the replayed call sequence determines the outcome."""
+    from harness.common import fresh_copy
+    F = fresh_copy(F)
     for attempt in range(4):
         coeffs = [[rng.uniform(50, 400) * rng.choice((1, 1, -0.3)) for _ in basis] for _ in range(nrows)]
         if env and attempt == 0:
@@ -252,6 +268,8 @@ def replay_fill(chk, F, system, basis, order, spell, nrows, rng, name, what, env
         try:
             with warnings.catch_warnings():
                 warnings.simplefilter("ignore")
+                for earlier in HISTORY:
+                    F.fill_cij(pandas.DataFrame(dict([("V", data["V"])] + [(spell.get(k, k), [t[r][k] for r in range(nrows)]) for k in earlier])), system)
                 out = F.fill_cij(df.copy(), system)
         except BaseException as e:
             if isinstance(e, (KeyboardInterrupt, SystemExit)):
